@@ -12,6 +12,7 @@ require (
 	github.com/joeqian10/neo3-gogogo v0.3.8
 	github.com/ontio/ontology v1.11.1-0.20200812075204-26cf1fa5dd47
 	github.com/ontio/ontology-crypto v1.0.9
+	github.com/ontio/ontology-eventbus v0.9.1
 	github.com/polynetwork/poly v0.0.0
 	github.com/switcheo/tendermint v0.34.14-2
 	github.com/syndtr/goleveldb v1.0.1-0.20200815110645-5c35d600f0ca
@@ -87,7 +88,6 @@ require (
 	github.com/natefinch/lumberjack v2.0.0+incompatible // indirect
 	github.com/novifinancial/serde-reflection/serde-generate/runtime/golang v0.0.0-20210526181959-1694c58d103e // indirect
 	github.com/olekukonko/tablewriter v0.0.2-0.20190409134802-7e037d187b0c // indirect
-	github.com/ontio/ontology-eventbus v0.9.1 // indirect
 	github.com/orcaman/concurrent-map v0.0.0-20190826125027-8c72a8bb44f6 // indirect
 	github.com/pelletier/go-toml v1.9.3 // indirect
 	github.com/phoreproject/bls v0.0.0-20200525203911-a88a5ae26844 // indirect
@@ -117,6 +117,7 @@ require (
 	github.com/subosito/gotenv v1.2.0 // indirect
 	github.com/tendermint/go-amino v0.15.1 // indirect
 	github.com/tendermint/iavl v0.14.0 // indirect
+	github.com/valyala/bytebufferpool v1.0.0 // indirect
 	github.com/zquestz/grab v0.0.0-20190224022517-abcee96e61b1 // indirect
 	golang.org/x/net v0.0.0-20211112202133-69e39bad7dc2 // indirect
 	golang.org/x/sys v0.0.0-20220222160653-b146bcec3beb // indirect
